@@ -100,3 +100,16 @@ Example flat_onehot_example :
   = [ModelEncodeCat.Num 3; ModelEncodeCat.Num 0; ModelEncodeCat.Num 0; ModelEncodeCat.Num 1; ModelEncodeCat.Num 5; ModelEncodeCat.Num 1; ModelEncodeCat.Num 0;
      ModelEncodeCat.Num 0; ModelEncodeCat.Num 1; ModelEncodeCat.Num 0].
 Proof. vm_compute. reflexivity. Qed.
+
+(* ... and with collections nested to any depth (fix ffa0447: for every collection first the collections below it, then its own categoricals from the last place to the first) *)
+From Coba Require C13.ModelEncodeNested C13.ProofsEncodeNested.
+Theorem nested_onehot_encoding_is_the_in_place_replacement : forall v, ModelEncodeNested.encode v = ModelEncodeNested.eager v.
+Proof. exact ProofsEncodeNested.encode_eq_eager. Qed.
+Print Assumptions nested_onehot_encoding_is_the_in_place_replacement.
+Example nested_onehot_example :
+  ModelEncodeNested.encode (ModelEncodeNested.VList [ModelEncodeNested.VNum 3; ModelEncodeNested.VCat 2 3;
+                             ModelEncodeNested.VList [ModelEncodeNested.VNum 5; ModelEncodeNested.VList [ModelEncodeNested.VCat 0 2]]; ModelEncodeNested.VCat 1 2])
+  = ModelEncodeNested.VList [ModelEncodeNested.VNum 3; ModelEncodeNested.VNum 0; ModelEncodeNested.VNum 0; ModelEncodeNested.VNum 1;
+                             ModelEncodeNested.VList [ModelEncodeNested.VNum 5; ModelEncodeNested.VList [ModelEncodeNested.VNum 1; ModelEncodeNested.VNum 0]];
+                             ModelEncodeNested.VNum 0; ModelEncodeNested.VNum 1].
+Proof. vm_compute. reflexivity. Qed.
